@@ -4,7 +4,7 @@
 # patch, the checks run against it (VERIF_REPO) with their own build, replay and evidence directories, and everything is
 # removed afterwards. Several seeds can therefore be tested in parallel and while checks run on the unchanged tree.
 N=$1; P=$2; shift 2
-W=/tmp/seedwt/$N
+W=/tmp/seedwt/$N.$$   # unique per invocation: several people may test the same seed at once
 rm -rf "$W" "$W.out"; mkdir -p /tmp/seedwt "$W.out"
 git -C /repo worktree prune; git -C /repo worktree add -q --detach "$W" HEAD || exit 3
 ( cd "$W" && git apply "$P" ) || { echo "PATCH DOES NOT APPLY: $P"; git -C /repo worktree remove --force "$W"; exit 3; }
